@@ -330,6 +330,64 @@ def t05(chk, repo):
     chk.ob("T05", NPZ, "rho", "the tail of every row decays (interpolation beyond the table falls back to a tiny value)", mono)
 
 
+def _blocked_delegation(ev, inner, pos, casts):
+    """The block-wise spelling of a straight delegation:
+
+        out = np.zeros(N);  for s in range(0, N, B): out[s:s+B] = inner(P[s:s+B])      (or min(s + B, N) as the upper end; or
+        for i in range(ceil(N / B)): out[i*B:(i+1)*B] = inner(P[i*B:(i+1)*B]))
+
+    with P the positions (or their float32 cast) and N their number.  The slices [s, s+B) for s = 0, B, 2B, ... tile [0, N) (numpy clips the
+    last one), the same slice is read and written, so out == inner(P).  Every return is that array or the straight delegation itself."""
+    P_ok = set(casts) | {pos}
+    lens = set()
+    for x in P_ok:
+        lens |= {f"len({x})", f"{x}.shape[0]", f"{x}.size"}
+    outs = {}
+    for e in ev.events:
+        if e.kind == "assign" and e.value is not None and e.value.as_atom() and e.value.as_atom()[0] == "obj":
+            i = e.value.as_atom()[3].as_atom()
+            if i and i[0] == "call" and call_name(i) in ("numpy.zeros", "numpy.empty") and i[2] and i[2][0].key() in lens:
+                outs[e.value.key()] = i[2][0]
+    if len(outs) != 1:
+        return False
+    (okey, N), = outs.items()
+    stores = [e for e in ev.events if e.kind in ("store", "aug") and e.target.as_atom() and e.target.as_atom()[0] == "sub" and e.target.as_atom()[1].key() == okey]
+    if len(stores) != 1 or stores[0].kind != "store" or len(stores[0].loops) != 1 or stores[0].loops[0].kind != "range":
+        return False
+    st, lp = stores[0], stores[0].loops[0]
+    sl = st.target.as_atom()[2]
+    if len(sl) != 1 or not (sl[0].as_atom() and sl[0].as_atom()[0] == "slice" and sl[0].as_atom()[3].key() == "None"):
+        return False
+    lo, hi = sl[0].as_atom()[1], sl[0].as_atom()[2]
+    va = st.value.as_atom()
+    if not (va and va[0] == "call" and va[1].key() == inner and len(va[2]) == 1 and not (len(va) > 3 and va[3])):
+        return False
+    arg = va[2][0].as_atom()
+    if not (arg and arg[0] == "sub" and arg[1].key() in P_ok and len(arg[2]) == 1 and arg[2][0].key() == sl[0].key()):
+        return False
+    i = lp.index
+    B = None
+    if lp.lo == P.const(0) and lp.hi is not None and lp.hi.key() == N.key() and lp.step is not None and lp.step.const_value() and lp.step.const_value() > 0:
+        # for s in range(0, N, B)
+        B = lp.step
+        if not (lo.key() == i.key() and (hi == i + B or hi.key() in (f"min({i + B}, {N})", f"min({N}, {i + B})"))):
+            return False
+    elif lp.lo == P.const(0) and lp.step == P.const(1):
+        # for k in range(ceil(N / B)): [k*B, (k+1)*B)
+        Bc = (hi - lo).const_value()
+        if not Bc or Bc <= 0 or not (lo == i * P.const(Bc)):
+            return False
+        ceil_forms = {f"-(bin FloorDiv -{N} {Bc})", f"(bin FloorDiv {N + (Bc - 1)} {Bc})", f"(bin FloorDiv {(N + (Bc - 1))} {Bc})"}
+        if lp.hi is None or lp.hi.key() not in ceil_forms:
+            return False
+    else:
+        return False
+    for r in ev.returns:
+        if r.value is None or not (r.value.key() == okey or r.value.key() in {f"{inner}({c})" for c in P_ok}):
+            return False
+    return True
+
+
 def r05_2_wrappers(chk, dp):
     """The Python wrappers hand positions and background to the compiled object unchanged."""
     casts = lambda p: {p, f"{p}.astype(numpy.float32)", f"numpy.asarray({p}, dtype=numpy.float32)", f"numpy.array({p}, dtype=numpy.float32)",
@@ -347,12 +405,18 @@ def r05_2_wrappers(chk, dp):
         if not ok and cls == "StockholderWeight":
             for c in casts(pos):
                 try:
-                    a = P.atom(("call", P.atom(("attr", P.atom(("attr", P.name("self"), "dens_a")), "rho")), (P.name(pos),)))
-                    b = P.atom(("call", P.atom(("attr", P.atom(("attr", P.name("self"), "dens_b")), "rho")), (P.name(pos),)))
-                    bg = P.atom(("attr", P.name("self"), "background"))
-                    ok = ok or r == a / (a + b + bg)
+                    args_seen = {x[2][0].key(): x[2][0] for x in find_atoms(r, lambda t: t[0] == "call" and call_name(t) == ".rho" and t[2])}
+                    for ak, av in args_seen.items():
+                        if ak not in casts(pos):
+                            continue
+                        a = P.atom(("call", P.atom(("attr", P.atom(("attr", P.name("self"), "dens_a")), "rho")), (av,)))
+                        b = P.atom(("call", P.atom(("attr", P.atom(("attr", P.name("self"), "dens_b")), "rho")), (av,)))
+                        bg = P.atom(("attr", P.name("self"), "background"))
+                        ok = ok or r == a / (a + b + bg)
                 except Exception:
                     pass
+        if not ok:
+            ok = _blocked_delegation(ev, inner, pos, casts(pos))
         chk.ob("R05.2", DP, q, f"the wrapper returns the compiled result for the given points unchanged ({inner}(points))", ok,
                node=ev.returns[-1].node, fingerprint="forward", expected=f"{inner}({pos}.astype(float32))", found=str(r)[:200])
     q = "StockholderWeight.from_arrays"
